@@ -7,6 +7,7 @@ ops (one JSON object per line):
   {"op":"inc_time"} / {"op":"inc_index"}   increase_time() / increase_time_index()   -> <state>
   {"op":"compute","iterations":i|null,"recompute":b}   -> {"ret":q|null, <state>, "m":..} | {"err":kind, <state>, "m":..}
   {"op":"final"}                         -> {"final":b, "m":..}
+  {"op":"restore","time":q,"dt":q}       set_time_and_dt_from_exported_steps (REPAIRED: cursor synchronised) -> <state>
   {"op":"loop","outcomes":[i,...]}       the time loop on an outcome tape (i >= 0: converged with i iterations,
                                          i < 0: failed) -> {"status":..., "accepted":[q..], <state>}
 <state> = "time","dt","ti","recomp","idx","about".
@@ -123,7 +124,8 @@ def step (st : St) (j : Json) : R (St × Json) := do
       rtol := (← fRat j "rtol"), atol := (← fRat j "atol") }
     let m := minMargin (initMargins p mm.isNone)
     if validate p then
-      pure (some (p, init p, decide (p.dtInit = p.dtMin)), obj ([("dt_min", ofRat dtMin), ("dt_max", ofRat dtMax)] ++ stateFields (init p) ++ [("m", m)]))
+      pure (some (p, init p, decide (p.dtInit = p.dtMin)), obj ([("dt_min", ofRat dtMin), ("dt_max", ofRat dtMax),
+        ("admissible", Json.bool (decide (Admissible p))), ("small_tol", Json.bool (decide (SmallTol p)))] ++ stateFields (init p) ++ [("m", m)]))
     else pure (none, obj [("err", Json.str "ValueError"), ("m", m)])
   | "inc_time" =>
     match st with
@@ -133,6 +135,14 @@ def step (st : St) (j : Json) : R (St × Json) := do
     match st with
     | none => throw "no time manager"
     | some (p, s, f) => pure (some (p, increaseTimeIndex s, f), obj (stateFields (increaseTimeIndex s)))
+  | "restore" =>
+    match st with
+    | none => throw "no time manager"
+    | some (p, s, _) =>
+      let t ← fRat j "time"
+      let dt ← fRat j "dt"
+      let s' := restore p s t dt
+      pure (some (p, s', decide (dt = p.dtMin)), obj (stateFields s'))
   | "final" =>
     match st with
     | none => throw "no time manager"
